@@ -1,6 +1,7 @@
 package main
 
 import (
+	"golang.org/x/sys/unix"
 	"bufio"
 	"encoding/json"
 	"fmt"
@@ -165,6 +166,12 @@ func c11Listing(d string) (string, []string, bool) {
 	}
 	var items, human []string
 	for _, e := range ents {
+		if e.Type()&os.ModeNamedPipe != 0 {
+			// a FIFO (used to hold the initial scan, see c11History): an unloadable file; never opened here
+			items = append(items, hx.P(hx.S(e.Name()), "CBad"))
+			human = append(human, e.Name()+":fifo")
+			continue
+		}
 		data, _ := os.ReadFile(filepath.Join(d, e.Name()))
 		t, _ := c11ContentOf(data)
 		items = append(items, hx.P(hx.S(e.Name()), t))
@@ -347,6 +354,8 @@ func c11History(r *hx.R, root string, idx int, tier string, st *c11Stats) hx.Cas
 	_ = os.MkdirAll(out, 0o755)
 	nd := 1 + r.Intn(3)
 	dirs := make([]string, nd)
+	holdDir := -1
+	onlyPrelude := false
 	var initTerms []string
 	initHuman := map[string]interface{}{}
 	for i := range dirs {
@@ -361,13 +370,32 @@ func c11History(r *hx.R, root string, idx int, tier string, st *c11Stats) hx.Cas
 				_ = os.WriteFile(filepath.Join(dirs[i], n), c11Pool[r.Intn(len(c11Pool))].data, 0o644)
 			}
 		}
+		if holdDir < 0 && r.Chance(0.3) {
+			// a FIFO with a Spec name holds the cache's initial scan of this directory until the harness opens its write
+			// end: changes made meanwhile fall between the start of cache creation and the end of its first scan
+			if unix.Mkfifo(filepath.Join(dirs[i], "m.yaml"), 0o644) == nil {
+				holdDir = i
+			}
+		}
 		t, h, _ := c11Listing(dirs[i])
 		initTerms = append(initTerms, hx.P(hx.S(dirs[i]), t))
 		initHuman[fmt.Sprintf("d%d", i)] = h
 	}
 
-	cache, _ := cdi.NewCache(cdi.WithSpecDirs(dirs...), cdi.WithAutoRefresh(true))
-	defer func() { _ = cache.Configure(cdi.WithAutoRefresh(false)) }()
+	var cache *cdi.Cache
+	created := make(chan bool, 1)
+	go func() {
+		cache, _ = cdi.NewCache(cdi.WithSpecDirs(dirs...), cdi.WithAutoRefresh(true))
+		created <- true
+	}()
+	if holdDir < 0 {
+		<-created
+	}
+	defer func() {
+		if cache != nil {
+			_ = cache.Configure(cdi.WithAutoRefresh(false))
+		}
+	}()
 
 	pacings := []string{"none", "gosched", "sleep", "burst", "stall", "mixed"}
 	pacing := pacings[r.Intn(len(pacings))]
@@ -462,6 +490,53 @@ func c11History(r *hx.R, root string, idx int, tier string, st *c11Stats) hx.Cas
 	}
 	pause := func() { time.Sleep(time.Duration(1+r.Intn(20)) * time.Millisecond) }
 
+	if holdDir >= 0 {
+		st.tails["changes-during-initial-scan"]++
+		fifo := filepath.Join(dirs[holdDir], "m.yaml")
+		// wait until the scan is blocked in open(2) on the FIFO: a non-blocking open of the write end succeeds only then
+		var wfd int = -1
+		for i := 0; i < 400 && wfd < 0; i++ {
+			fd, err := unix.Open(fifo, unix.O_WRONLY|unix.O_NONBLOCK, 0)
+			if err == nil {
+				wfd = fd
+			} else {
+				time.Sleep(5 * time.Millisecond)
+			}
+		}
+		// changes while the creation of the cache is in progress
+		for i, n := 0, 1+r.Intn(3); i < n; i++ {
+			c := r.Intn(len(c11Pool))
+			switch r.Intn(4) {
+			case 0:
+				do(c11Op{Kind: "write", Dir: holdDir, N: hx.Pick(r, []string{"a.json", "b.yaml", "c.json"}), C: c})
+			case 1:
+				do(c11Op{Kind: "movein", Dir: holdDir, N: hx.Pick(r, []string{"a.json", "b.yaml", "c.json"}), C: c})
+			case 2:
+				do(c11Op{Kind: "remove", Dir: holdDir, N: pickName(holdDir, 1.0)})
+			default:
+				n2 := hx.Pick(r, []string{"a.json", "b.yaml"})
+				do(c11Op{Kind: "write", Dir: holdDir, N: n2 + ".tmp", C: c})
+				do(c11Op{Kind: "rename", Dir: holdDir, N: n2 + ".tmp", B: n2})
+			}
+		}
+		// release the scan: the FIFO goes away, the reader sees end of file
+		if _, err := os.Lstat(fifo); err == nil {
+			do(c11Op{Kind: "remove", Dir: holdDir, N: "m.yaml"})
+		}
+		if wfd >= 0 {
+			_ = unix.Close(wfd)
+		}
+		select {
+		case <-created:
+		case <-time.After(30 * time.Second):
+			panic("c11: cache creation did not finish after the FIFO holding its scan was released")
+		}
+		if r.Chance(0.7) {
+			// the changes made during the creation are the last ones: nothing later may repair a missed event
+			nops = 0
+			onlyPrelude = true
+		}
+	}
 	burstLeft := 0
 	for done := 0; done < nops; {
 		ops := randomOp()
@@ -512,7 +587,12 @@ func c11History(r *hx.R, root string, idx int, tier string, st *c11Stats) hx.Cas
 	// up; the directory is removed again with no query in between"
 	tail := "none"
 	known := ""
-	switch k := r.Intn(100); {
+	kTail := r.Intn(100)
+	if onlyPrelude {
+		kTail = 99
+		tail = "only-changes-during-initial-scan"
+	}
+	switch k := kTail; {
 	case k < 30:
 		tail = "last-op"
 		d := r.Intn(nd)
